@@ -36,8 +36,15 @@ CLAIMS = {
     "C11": dict(cat="proof", tech="interval abstract interpretation of checked-mode MIR with inductive limb-bound type invariants (ABSINT engine)",
                 text="Serial u64 and u32 backends: every Assert(overflow / bounds / division) terminator, debug assertion and panicking call reachable from every exported function of curve25519-dalek (roots discovered, >=250 per backend, parameters at their type's limb-bound invariant) "
                      "and from the field kernels under their documented precondition is shown unreachable by a sound interval analysis; every value of an invariant-carrying type produced by a root re-establishes the invariant (so chains of operations are covered inductively). "
-                     "Residuals are two reviewed obligations (non-zero product in batch_invert; oddness of NAF digits) and assumptions A1-A4. Vector (AVX2/IFMA) and fiat kernels are not yet covered by the quick tier (see DESIGN.md)",
+                     "Generic entry points (Straus, Pippenger per window width, Sum/Product folds, batch_invert, double_and_compress_batch, the ladder) are analysed over abstract collections. "
+                     "Residuals are reviewed obligations with reasons in props/C11.py (non-zero products in the two batch_invert routines; oddness of NAF digits; documented equal-length precondition of multiscalar_mul; the algebraic expect() in nonspec_map_to_curve) and assumptions A1-A4. Vector (AVX2/IFMA) and fiat kernels are not yet covered by the quick tier (see DESIGN.md)",
                 note="sound-by-construction interval domain over the compiler's checked-mode MIR; trusted: exporter, interpreter + library models, assumptions A1-A4 listed in the evidence", ref="3.2, 4 C11"),
+    "C15": dict(cat="other", tech="panic-edge inventory over the resolved call graph + interval abstract interpretation from every untrusted-input entry point (PANIC + ABSINT engines)",
+                text="From every exported function that consumes bytes / encodings / signatures / Montgomery points (discovered by signature, 75 today), in the three crates: every Assert terminator and panic-capable call "
+                     "on a live path of every reachable function (>=250 functions, >=600 edges per configuration) is discharged by constant/length reasoning, or shown to hold / be unreachable by the interval analysis run from the same entry points "
+                     "with arbitrary byte contents and slice lengths, or matches one of three reviewed residuals (relational length equalities in verify_batch; the algebraic expect() in nonspec_map_to_curve, whose structural side condition - "
+                     "to_edwards yields None only via the u == -1 test or decompress() - is checked on every run). Release-mode MIR; checked-build arithmetic panics are C11's",
+                note="allocation failure, foreign crates' internals and user trait impls are outside; trusted: exporter, PANIC inventory, ABSINT interpreter + models", ref="3.5, 4 C15"),
     "C12": dict(cat="proof", tech="exhaustive comparison of compiler-evaluated constants with an independent big-integer oracle (static: no repository code run)",
                 text="Every const/static of the three crates (field, scalar, point, table, vector-lane and ff constants), as evaluated by rustc and decoded by type layout, "
                      "equals its mathematical definition; exhaustive over all 2x(256+64) serial and 64(+64) vector table entries and every limb representation; quick = simd(u64+AVX2)+u32, thorough = all 8 configurations",
@@ -65,7 +72,6 @@ NA_REASON = {
     "C02": "value-level: exact arithmetic mod l for all inputs (Montgomery reduction, Karatsuba) quantifies over runtime values; intervals prove absence of overflow (C11) but not equality mod l. See DESIGN.md",
     "C04": "value-level: equality of each algorithm's output with sum s_i*P_i is a group-arithmetic identity over all inputs; only digit-range side conditions are statically decidable and they are decided inside C11. See DESIGN.md",
     "C05": "cross-configuration byte equality of outputs for all inputs is a relational value-level property; static agreement of sibling implementations cannot establish equality of numerical results. See DESIGN.md",
-    "C15": "PANIC engine inventory exists (props/C15.py) but 164 panic edges are not yet discharged statically; not claimed until the residual table is reviewed. See DESIGN.md",
 }
 
 m = {
@@ -82,7 +88,7 @@ m = {
         {"name": "mirfacts", "path": "mirfacts/", "serves_properties": sorted(CLAIMS), "kind_free_text": "rustc_private driver: exports resolved MIR, ADTs, impls and const-evaluated constants per crate and configuration"},
         {"name": "CONSTS", "path": "lib/eng_consts.py", "serves_properties": ["C12", "C17"], "kind_free_text": "constants vs big-integer oracle"},
         {"name": "TAINT/ZEROIZE", "path": "lib/eng_taint.py props/C14.py", "serves_properties": ["C10", "C14"], "kind_free_text": "interprocedural taint with transfer summaries and points-to; drop/zeroize field coverage; heap typestate"},
-        {"name": "ABSINT", "path": "lib/absint.py lib/absint_models.py lib/eng_absint.py", "serves_properties": ["C11"], "kind_free_text": "interval abstract interpreter over checked-mode MIR with inductive type invariants"},
+        {"name": "ABSINT", "path": "lib/absint.py lib/absint_models.py lib/eng_absint.py", "serves_properties": ["C11", "C15"], "kind_free_text": "interval abstract interpreter over checked-mode MIR with inductive type invariants"},
         {"name": "PATH", "path": "lib/mirlib.py lib/pathlib2.py lib/ex.py", "serves_properties": [p for p in ["C03", "C06", "C07", "C08", "C09", "C13", "C16", "C17"] if p in CLAIMS],
          "kind_free_text": "dominance (edge-removal reachability), value-flow slices, expression trees, ORDER, guard implication"},
     ],
